@@ -266,6 +266,9 @@ class Engine:
             self.obligs.append(Oblig(name, [], z3.BoolVal(True), kind, note))
             return
         note = (note + " " if note else "") + (f"[variant {self.variant}]" if getattr(self, "variant", "") else "")
+        bf = getattr(self, "backend_first", None)  # contract option: "cvc5" (every obligation of the carrier) or a list of label substrings
+        if bf == "cvc5" or (isinstance(bf, (list, tuple)) and any(x in name for x in bf)):
+            note += " [cvc5-first]"
         self.obligs.append(Oblig(name, list(self.pc), goal, kind, note))
         self.pc.append(goal)
 
